@@ -23,7 +23,13 @@ def title_of(m):
     return t[:120].replace('|', '/')
 
 
-rows = {1: [], 2: [], 3: [], 4: []}
+NR = 6
+rows = {k: [] for k in range(1, NR + 1)}
+
+
+def round_of(n):
+    return min(NR, (n + 1) // 2)
+
 for d in sorted(glob.glob(os.path.join(V, 'seeded', 'C*-*'))):
     mp = os.path.join(d, 'meta.json')
     if not os.path.exists(mp):
@@ -34,7 +40,7 @@ for d in sorted(glob.glob(os.path.join(V, 'seeded', 'C*-*'))):
     if not r:
         continue
     n = int(sid.split('-')[1])
-    rnd = 1 if n <= 2 else 2 if n <= 4 else 3 if n <= 6 else 4
+    rnd = round_of(n)
     ownp = m['property']
     verdict = {'V': 'VIOLATION', 'U': 'undecided', 'M': '**missed**'}[own(r)]
     first = ''
@@ -52,37 +58,38 @@ tot = collections.Counter(own(v) for v in seeded.values())
 per = {}
 for k, v in seeded.items():
     n = int(k.split('-')[1])
-    rnd = 1 if n <= 2 else 2 if n <= 4 else 3 if n <= 6 else 4
+    rnd = round_of(n)
     per.setdefault(rnd, collections.Counter())[own(v)] += 1
 HDR = '| change | what it does (author\'s heading) | own property | first failing obligation / reason for indecision | also reported under |\n|---|---|---|---|---|\n'
 out = []
 out.append('## 13. Seeded changes: what catches what\n')
-out.append("""%d property-breaking changes were written by fresh sub-agents in four rounds (two per claimed property in rounds 1-3; C19 once,
-after it was claimed; round 4 for eight properties, asked for SMALL slips - a changed operator, a wrong variable, an off-by-one). Each sub-agent saw only the text of one property, a scratch worktree of `/repo` under `/tmp`, and - from the
-second round on - one-line descriptions of the changes already made for that property, so as not to repeat them; nothing from
-`/verif`. Each change was confirmed here (`tools/validate_seeds.py`, scratch worktree outside `/repo` and `/verif`): the patch
-applies to `/repo` HEAD, the 120-test suite still passes, the author's demonstration passes on the unchanged tree and fails with the
-change (`seeded/validation_summary*.json`; per change `seeded/<id>/{patch.diff,demo.rs,meta.json}`; C17-5/6 by hand because their
-demonstrations need `--cfg sv_parser_verif`). Then EVERY claimed check was run against EVERY change (`tools/run_checks_on_seeds.py`,
-`VERIF_REPO`/`VERIF_OUT` pointing outside `/repo` and `/verif`); nothing is ever committed to `/repo`. `seeded/RESULTS.md` /
-`seeded/results.json` hold the full matrix of the last run. Ids: `Cxx-1/2` first round, `Cxx-3/4` second, `Cxx-5/6` third, `Cxx-7/8` fourth.
+out.append("""%d property-breaking changes were written by fresh sub-agents in six rounds (two per claimed property in rounds 1-3; C19 once,
+after it was claimed; rounds 4-6 asked for SMALL slips - a changed operator or constant, a wrong variable, an off-by-one, a wrong string
+literal, a Cargo feature - round 4 for eight properties, round 5 for the other nine, round 6 again for twelve with the instruction to
+look at code the property depends on INDIRECTLY: lexers, the proc-macro crate, trait impls, constants, Cargo.toml). Each sub-agent saw
+only the text of one property, a scratch worktree of `/repo` under `/tmp`, and - from the second round on - one-line descriptions of the
+changes already made for that property, so as not to repeat them; nothing from `/verif`. Each change was confirmed here
+(`tools/validate_seeds.py`, scratch worktree outside `/repo` and `/verif`): the patch applies to `/repo` HEAD, the 120-test suite still
+passes, the author's demonstration passes on the unchanged tree and fails with the change (`seeded/validation_summary*.json`; per change
+`seeded/<id>/{patch.diff,demo.rs,meta.json}`; C17-5/6 by hand because their demonstrations need `--cfg sv_parser_verif`). Then EVERY
+claimed check was run against EVERY change (`tools/run_checks_on_seeds.py`, `VERIF_REPO`/`VERIF_OUT` pointing outside `/repo` and
+`/verif`); nothing is ever committed to `/repo`. `seeded/RESULTS.md` / `seeded/results.json` hold the full matrix of the last run. Ids:
+`Cxx-1/2` first round, `Cxx-3/4` second, `Cxx-5/6` third, `Cxx-7/8` fourth, `Cxx-9/10` fifth, `Cxx-11/12` sixth.
 
 Result of the last run (own property of each change): **%d VIOLATION, %d undecided (exit 2), %d missed** of %d
-(round 1: %s; round 2: %s; round 3: %s; round 4: %s). Undecided always means that the changed code left what the verifier front end or an
+(%s). Undecided always means that the changed code left what the verifier front end or an
 annotation anchor accepts (a new helper with `?`, iterator chains with closures, a new struct, a rewritten `quote!` template, a
-changed signature); it is never an alarm. The later rounds are harder on purpose (the obvious sites were taken), which is what
-the falling share of violations shows.
+changed signature), or - since the fourth pass - that a production of the pp grammar whose accepted language is an ASSUMED contract
+(A-pplex) is no longer the pinned text; it is never an alarm. The verdicts above are those of the checks AS STRENGTHENED after each
+round; what each round found missing when it was first run is told in 13.9.
 """ % (len(seeded), tot['V'], tot['U'], tot['M'], len(seeded),
-       ', '.join('%d %s' % (per[1][k], n) for k, n in (('V', 'V'), ('U', 'U'), ('M', 'missed'))),
-       ', '.join('%d %s' % (per[2][k], n) for k, n in (('V', 'V'), ('U', 'U'), ('M', 'missed'))),
-       ', '.join('%d %s' % (per[3][k], n) for k, n in (('V', 'V'), ('U', 'U'), ('M', 'missed'))),
-       ', '.join('%d %s' % (per.get(4, collections.Counter())[k], n) for k, n in (('V', 'V'), ('U', 'U'), ('M', 'missed')))))
-for rnd in (1, 2, 3, 4):
+       '; '.join('round %d: %s' % (r, ', '.join('%d %s' % (per.get(r, collections.Counter())[k], n) for k, n in (('V', 'V'), ('U', 'U'), ('M', 'missed')))) for r in range(1, NR + 1))))
+for rnd in range(1, NR + 1):
     out.append('\n### 13.%d Round %d\n\n' % (rnd, rnd) + HDR + '\n'.join(rows[rnd]) + '\n')
 alarms = {k: v['caught_by'] for k, v in ben.items() if v['caught_by']}
 und = {k: v['undecided_in'] for k, v in ben.items() if v['undecided_in']}
 out.append("""
-### 13.4 Benign patches (the property holds; an alarm here is a false alarm)
+### 13.7 Benign patches (the property holds; an alarm here is a false alarm)
 
 %d patches in `seeded/benign/`: nine written here (B1-B9: comments and layout, renamed locals, reordered independent statements
 and `skip_nodes.push` calls, an equivalent expression, a local for a forwarded flag, `.iter()` over the keyword table, reordered
@@ -97,7 +104,7 @@ match arms, an equivalent combinator form) and sixteen behaviour-preserving refa
 if alarms:
     out.append('\nALARMS ON BENIGN PATCHES (to be corrected): %s\n' % alarms)
 out.append("""
-### 13.5 What the rounds taught, and what was strengthened because of them
+### 13.9 What the rounds taught, and what was strengthened because of them
 
 Round 1: unit split (C05-2), unit display (C08-2), `C17.direct-state-access` (C17-2), `okfrom` (C20-1), `Chars::count` spec and
 pt under C06 (C06-2), soft anchors and quarantine (C04-2, C18-2, B3), multiset skip contract (B4), gvc.pptotal (C06-1).
@@ -118,6 +125,13 @@ literal of the same `alt` as a prefix can never be taken (C11-7: `tag("\\\r")` b
 the remaining input must be threaded through every step of a production (C15-8: `let (_, b) = ..(s)?` in
 `source_text_incomplete` parses the same text twice; now a failure of gvc.top for C15 and of the faithfulness lemma for C01);
 `first()` next to `last()` on the version stack (C13-7).
+Round 5 (small slips, the other nine properties; 5 of 19 first MISSED) and round 6 (indirect dependencies; 7 of 16 first MISSED):
+see section 10.3e for the obligations they led to - gvc.kwsites, the dual obligation of gvc.pptotal, the C18 projection of
+`split_text`, once-initialised statics, the capacity of the recursion-flag table read from Cargo.toml, the span / line projections of
+the derive-generated `Locate` fold and `Locate::str` as premises of every arms-based property, conditional selection under C11,
+table adoption under C09, mode selection under C01, `Error::Parse` constructed by the strict parsers only and `init()`'s resets
+under C15, assumption A-pplex guarded by fingerprints (gvc.assumed), and the premise closure in `check` (a refuted callee
+contract leaves every property that relies on it undecided).
 Benign round: two false alarms corrected, R-inline, tolerant panic inventory (section 10.5).
 Still undecided and why: helpers with `?` or a changed signature (C01-6, C15-6, C03-5), iterator chains (`rev().find_map`,
 `map().collect()`, `retain`: C03-6, C20-5, C11-5), new data structures or API of std's B-tree (C08-6, C03-4), a new arm with a new
